@@ -115,6 +115,12 @@ theorem linear_eq_spec (dbg : Bool) {src : List Nat} (hs : LineStartsOk src) (op
   rw [init_eq_stateAt]
   exact runFrom_eq hs dbg ops _ (curOk_init hs) h
 
+/-- The same for a text given as valid UTF-8. -/
+theorem linear_eq_spec_utf8 (dbg : Bool) {src : List Nat} (hv : validUtf8 src = true) (ops : List Op)
+    (h : Forward src (initCursor src) ops) :
+    run dbg src ops = ops.map (fun op => some (rowCol src op.off)) :=
+  linear_eq_spec dbg (validUtf8_lineStartsOk hv) ops h
+
 /-- The form with a plain list of offsets: non-decreasing, in the domain, not inside a leading BOM. -/
 theorem linear_eq_spec_monotone (dbg : Bool) {src : List Nat} (hs : LineStartsOk src) (offs : List Nat)
     (hmono : offs.Pairwise (· ≤ ·)) (hdom : ∀ o ∈ offs, InDomain src o)
